@@ -18,7 +18,7 @@ From Coq Require Import List NArith Bool Lia.
 From Pika Require Import Base.Conc Gen.GenStopBits Model.StopWord Model.StopState
   Model.StopHandles Proofs.StopFlagsProofs Proofs.StopStateProofs Proofs.StopHandlesProofs
   Proofs.StopCallbacksAbs Proofs.StopCallbacksProofs Proofs.StopProgressStep Proofs.StopProgressProofs
-  Proofs.StopCtorProofs Proofs.StopSourcesProofs.
+  Proofs.StopCtorProofs Proofs.StopSourcesProofs Proofs.StopTaskIds.
 Import ListNotations.
 
 (* the regenerated layout: four disjoint fields filling the 64-bit word *)
@@ -192,6 +192,45 @@ Proof.
   split; [|vm_compute; reflexivity].
   intros H. specialize (H 0%nat 1%nat). cbn in H. discriminate (H eq_refl).
 Qed.
+
+(* pika TASKS: every model thread is a task with its own pika thread id, running on an arbitrary OS thread
+   ([osf]: all tasks on ONE worker OS thread, or any other assignment).  The identity test never consults the OS
+   thread id of a task, such parameters are faithful whatever [osf] is, so both destructor clauses hold for tasks
+   that share a worker OS thread: the destructor called by task B waits for the callback running inside task A
+   also when A entered request_stop on the OS thread B is running on. *)
+Theorem C14_dtor_waits_tasks_any_os_thread : forall body osf sched w0 progs srcs, good_init w0 ->
+  let P := task_params body osf in
+  let c := st_run P sched w0 progs srcs in
+  bad_dtor_during_run (fst c) = false /\
+  forall t k,
+    (pc (snd c t) = RRelease k ->
+       cb_running (cb (fst c) k) = None \/ cb_running (cb (fst c) k) = Some t) /\
+    (pc (snd c t) = RWait k -> cb_running (cb (fst c) k) <> Some t) /\
+    (same_thread P (fst c) t = true <-> winner (fst c) = Some t).
+Proof. exact dtor_waits_tasks_any_os_thread. Qed.
+Print Assumptions C14_dtor_waits_tasks_any_os_thread.
+
+(* non-vacuity: the run of C14_callbacks_example with two TASKS on ONE OS thread (os_id constant 0): task 0
+   destroys callback 0 while it runs inside task 1's request_stop: after [s1] task 0 sits in the waiting loop -- it
+   does not take itself for the signalling thread although the recorded signalling OS thread is its own; after
+   [s1 ++ s2] the callback ran once and the destructor returned *)
+Example C14_tasks_one_os_thread_example :
+  let P := task_params (fun _ => [OpTokCopy]) (fun _ => 0%nat) in
+  let progs := fun t => match t with 0%nat => [OpAdd 0; OpRem 0] | 1%nat => [OpReq] | _ => [] end in
+  let srcs := fun t => match t with 1%nat => 1%nat | _ => 0%nat end in
+  let w0 := (3 + source_ref_increment)%N in
+  let s1 := map (fun t => (t, false)) [0;0;0;0;0; 1;1;1;1;1; 0;0;0;0;0;0]%nat in
+  let s2 := map (fun t => (t, false)) [1;1;1;1;1;1; 0;0]%nat in
+  let c1 := st_run P s1 w0 progs srcs in
+  let c2 := st_run P (s1 ++ s2) w0 progs srcs in
+  good_init w0 /\ os_id P 0%nat = os_id P 1%nat /\
+  pc (snd c1 0%nat) = RWait 0 /\ cb_running (cb (fst c1) 0%nat) = Some 1%nat /\
+  same_thread P (fst c1) 0%nat = false /\ same_thread P (fst c1) 1%nat = true /\
+  sig_os (fst c1) = Some (os_id P 0%nat) /\
+  cb_runs (cb (fst c2) 0%nat) = 1%nat /\ cb_dtor (cb (fst c2) 0%nat) = 2%nat /\
+  thread_done (snd c2 0%nat) = true /\ thread_done (snd c2 1%nat) = true /\
+  bad_dtor_during_run (fst c2) = false.
+Proof. Transparent W. vm_compute. repeat split; reflexivity. Qed.
 
 (* ------------------------------------------------------------------------------------------
    Part 1c: progress (as safety of stuck states) and the "already requested" constructor path.
